@@ -397,3 +397,31 @@ func RepoDescriptors(repo string) (map[string]*descriptorpb.FileDescriptorProto,
 	}
 	return out, nil
 }
+
+// GoCamelCase is protogen's rule for deriving a Go identifier from a proto name.
+func GoCamelCase(s string) string {
+	lower := func(c byte) bool { return 'a' <= c && c <= 'z' }
+	var b []byte
+	for i := 0; i < len(s); i++ {
+		c := s[i]
+		switch {
+		case c == '.' && i+1 < len(s) && lower(s[i+1]):
+		case c == '.':
+			b = append(b, '_')
+		case c == '_' && (i == 0 || s[i-1] == '.'):
+			b = append(b, 'X')
+		case c == '_' && i+1 < len(s) && lower(s[i+1]):
+		case '0' <= c && c <= '9':
+			b = append(b, c)
+		default:
+			if lower(c) {
+				c -= 'a' - 'A'
+			}
+			b = append(b, c)
+			for ; i+1 < len(s) && lower(s[i+1]); i++ {
+				b = append(b, s[i+1])
+			}
+		}
+	}
+	return string(b)
+}
